@@ -1,0 +1,10 @@
+//go:build !verif
+
+package fusemanager
+
+import "github.com/containerd/stargz-snapshotter/snapshot"
+
+// verifWrapFileSystem is a verification hook; it is the identity unless built with the "verif" tag.
+func verifWrapFileSystem(fs snapshot.FileSystem, err error) (snapshot.FileSystem, error) {
+	return fs, err
+}
